@@ -127,3 +127,59 @@ PROPS['C05'] = dict(
     assumptions=['2 mm / azimuth accuracy against the exact geodesic, and that binary64 evaluation preserves the proved '
                  'real-number symmetries to 1 mm, are decided by search'],
 )
+
+PROPS['C14'] = dict(
+    module='GeodeVerif.Proofs.C14', namespace='GeodeVerif.C14',
+    required_theorems=['vincinv_utm_def', 'line_sf_def', 'line_sf_formula', 'line_sf_symmetric', 'line_sf_ge_k0',
+                       'line_sf_point', 'rho_nu_def', 'cross_zone', 'vincdir_utm_structure', 'whileLoopE_ok',
+                       'vincdir_utm_exit', 'arguments_threaded'],
+    tie_functions=['Geodesy.line_sf', 'Geodesy.rho', 'Geodesy.nu', 'Geodesy.vincinv_utm', 'Geodesy.vincdir_utm', 'Survey.radiations'],
+    tie_n={'quick': 1500, 'thorough': 40000},
+    probe='C14.py',
+    rule='tie: seeded UTM points/lines (1 m..100 km, same and adjacent zones, both hemispheres, shipped and random '
+         'ellipsoids), bitwise GenF vs real vincinv_utm/vincdir_utm/line_sf; non-trivial = returned a value. search: '
+         'definition of the grid inverse, direct inverts inverse (1 mm), line scale factor vs point scale factors.',
+    trusted_base=GEOD_TB + ['while-loop fuel 100 in the model of vincdir_utm (the source loop is uncapped)'],
+    assumptions=['1 mm closure and the 3e-7 / 5e-7 scale-factor comparisons are decided by search (numeric facts about '
+                 'Deakin\'s line-scale-factor formula and the iteration)'],
+)
+
+PROPS['C16'] = dict(
+    module='GeodeVerif.Proofs.C16', namespace='GeodeVerif.C16',
+    required_theorems=['rot_orthonormal', 'up_is_ellipsoid_normal', 'enu_xyz_inverse', 'enu_norm', 'vcv_rotation',
+                       'vcv_rotation_inv', 'vcv_rotation_31', 'ellipse_axes', 'ellipse_orientation',
+                       'ellipse_defined_singular', 'relative_error_def', 'relative_error_eq', 'k_table_logic'],
+    tie_functions=['Statistics.rotation_matrix', 'Statistics.vcv_cart2local_33', 'Statistics.vcv_cart2local_31',
+                   'Statistics.vcv_local2cart_33', 'Statistics.vcv_local2cart_31', 'Statistics.error_ellipse',
+                   'Statistics.relative_error', 'Statistics.circ_hz_pu', 'Statistics.k_val95', 'Geodesy.enu2xyz', 'Geodesy.xyz2enu'],
+    tie_n={'quick': 2000, 'thorough': 100000},
+    probe='C16.py',
+    rule='tie: seeded lat/lon (poles, cardinal meridians, ±360), PSD/singular/diagonal covariances, vectors to 1e7 m, '
+         'dof −5..200; GenF vs real functions: bitwise for scalar code, scaled tolerance (gens.TIE_TOL) where the '
+         'implementation goes through numpy @ (BLAS evaluation order). search: orthonormality, ENU inverse, eigenvalue/'
+         'trace preservation, ellipse axes/orientation vs numpy eigen-decomposition, t quantiles vs scipy.',
+    trusted_base=['the real-number reading of statistics.py and geodesy.enu2xyz/xyz2enu produced by the translator; numpy '
+                  'matrices are expanded into scalar sums at translation time (zero entries skipped)',
+                  'shape specialisation: the 3x3 and 3x1 cases of vcv_cart2local/vcv_local2cart are modelled; the '
+                  'ValueError branch for other shapes is checked by the search step only'],
+    assumptions=['"tabulated 95 % coverage factors equal the two-sided Student-t quantiles to five decimals" is decided by '
+                 'comparison with scipy.stats.t.ppf only (no verified incomplete-beta numerics in Mathlib)',
+                 'binary64 rounding in the rotations and square roots is covered by search (condition numbers to 1e8)',
+                 'isinstance(dof, int) is modelled as integrality of the value'],
+)
+
+PROPS['C13'] = dict(
+    module='GeodeVerif.Proofs.C13', namespace='GeodeVerif.C13',
+    required_theorems=['pipeline_94_to_2020', 'pipeline_2020_to_94', 'height_absent', 'height_absent_2020_to_94',
+                       'natural_zone', 'vcv_path', 'vcv_path_2020_to_94', 'inverse_pair_parameters', 'conform7_ok'],
+    tie_functions=['Transform.transform_mga94_to_mga2020', 'Transform.transform_mga2020_to_mga94', 'Transform.conform7',
+                   'Statistics.vcv_local2cart_33', 'Statistics.vcv_cart2local_33'],
+    tie_n={'quick': 2000, 'thorough': 60000},
+    probe='C13.py',
+    rule='tie: zones 46..59 and the whole UTM domain, heights present/absent/0, 3x3 PSD covariances; GenF vs the real '
+         'functions (zone exact, E/N/height within one unit of the 4th decimal [rounded outputs], covariance scaled '
+         'tolerance). search: mutual inverses (0.3 mm / 0.2 mm), stepwise composition, height absent, covariance path, 3x1 columns.',
+    trusted_base=['the real-number reading of transform.py produced by the translator (3x3 covariance specialisation; the '
+                  '3x1 variance-column path is exercised on the real code by the search step only)'],
+    assumptions=['0.3 mm / 0.2 mm closure inherits the numeric gaps of C02/C03 (search only)'],
+)
